@@ -1442,7 +1442,7 @@ def run(ctx: core.Ctx):
         what = (verdict(small, rr) if "predict" in rr else f"real code raised {rr['__error__']}: {rr['text'][:300]}") or w
         ctx.violation("real output violates C10: " + classify(what) + f" [{small['link_type']}, tf {small['tf_mode']}, {small['engine']}]",
                       {"case": small, "detail": what, "observed": rr if "__error__" in rr else {k: rr.get(k) for k in ("predict", "me")}}, kind="concrete", match_info=match_info(small, what))
-    if not concrete:
+    if not ctx.violations:  # no NEW concrete violation (none at all, or only ones a registered known finding describes)
         if broken:
             c, w = broken[0]
             ctx.violation("correspondence Entry model <-> real entry points no longer checks",
